@@ -420,6 +420,35 @@ pub fn lexeme_variants() -> Space {
         ("kindname-INTEGER-code", "package p; interface I { void f() = INTEGER; }".into()),
         ("kindname-VOID-return", "package p; interface I { VOID f(); LIST<MAP> g(); CONST int K = 1; }".into()),
         ("kindname-annotation", "package p; @ANNOTATION(IDENT=IDENT) interface I { }".into()),
+        // keywords written with other letter case at their own slot (identifiers there)
+        ("case-Package", "Package a; interface I { }".into()),
+        ("case-Import", "package a; Import b.C; interface I { }".into()),
+        ("case-Interface", "package a; Interface I { }".into()),
+        ("case-oneway-Interface", "package a; oneway Interface I { }".into()),
+        ("case-Oneway", "package a; Oneway interface I { }".into()),
+        ("case-Parcelable", "package a; Parcelable I { }".into()),
+        ("case-Enum", "package a; Enum E { A }".into()),
+        ("case-Const", "package a; interface I { Const int K = 1; }".into()),
+        ("case-Void", "package a; interface I { Void f(); VOID g(); }".into()),
+        ("case-In", "package a; interface I { void f(In int a, OUT int b, InOut int c); }".into()),
+        ("case-Integer-value", "package p; enum E { A = Integer, B = Float, C = True }".into()),
+        ("case-Integer-code", "package p; interface I { void f() = Integer; }".into()),
+        ("case-string-types", "package p; parcelable P { string a; charsequence b; list c; map d; Int e; Boolean f; }".into()),
+        // non-ASCII string literals as offending tokens
+        ("nonascii-string-after-annotation", "package p; @A \"Größe µ°\" interface I { }".into()),
+        ("nonascii-string-as-code", "package p; interface I { int read() = \"µ°\"; void g(); }".into()),
+        ("nonascii-string-in-enum", "package p; enum E { A, \"日本😀\", B }".into()),
+        ("nonascii-string-as-member", "package p; parcelable P { \"é\" int x; }".into()),
+        ("nonascii-string-extra", "package p; parcelable P { } \"ü\"".into()),
+        ("nonascii-string-as-name", "package p; interface I { void f(int \"naïve\"); }".into()),
+        // well-known annotation names with and without parameters
+        ("known-annotations-enum", "package p; @Backing enum A { X }".into()),
+        ("known-annotations-enum-empty", "package p; @Backing() enum A { X }".into()),
+        ("known-annotations-enum-other-key", "package p; @Backing(size=\"int\") enum A { X }".into()),
+        ("known-annotations-enum-type", "package p; @Backing(type=\"byte\") @VintfStability enum A { X }".into()),
+        ("known-annotations-parcelable", "package p; @JavaDerive(toString=true, equals=true) @RustDerive(Clone=true) @FixedSize @JavaOnlyStableParcelable @JavaOnlyImmutable @SuppressWarnings(value={\"x\"}) parcelable A { @nullable @utf8InCpp String s; @nullable(heap=true) A next; @JavaPassthrough(annotation=\"@x.Y\") int z = 1; }".into()),
+        ("known-annotations-interface", "package p; @VintfStability @SensitiveData @Descriptor(value=\"a.b.C\") @UnsupportedAppUsage @SystemApi @Hide interface A { @EnforcePermission(\"X\") void f(); @RequiresNoPermission @PropagateAllowBlocking @nullable IBinder g(@nullable in String s); @PermissionManuallyEnforced @Deprecated @Override oneway void h(); @JavaDefault void d(); }".into()),
+        ("known-annotations-bare-parameters", "package p; @Backing(type) @Descriptor() @JavaDerive(toString, equals=true,) enum A { @Backing X, @Deprecated() Y = 1 }".into()),
         // brace values: separators
         ("brace-juxtaposed", "package p; parcelable P { int[] a = {1 2}; }".into()),
         ("brace-juxtaposed-after-comma", "package p; parcelable P { int[] a = {1, 2 3}; }".into()),
